@@ -16,14 +16,15 @@ import (
 )
 
 type Config struct {
-	Kind   string
-	KT, VT string // atom types of the string side: "string" / "int" (value kinds: KT only)
-	KRev   bool   // key / element comparator reversed (comparator-taking kinds)
-	VRev   bool   // value comparator reversed (TreeBidiMap)
-	KTie   string // relational cases: tying key / element comparator ("" = natural order)
-	VTie   string // relational cases: tying value comparator of TreeBidiMap
-	Cap    int    // CircularBuffer
-	Order  int    // BTree
+	Kind    string
+	KT, VT  string // atom types of the string side: "string" / "int" (value kinds: KT only)
+	KRev    bool   // key / element comparator reversed (comparator-taking kinds)
+	VRev    bool   // value comparator reversed (TreeBidiMap)
+	Default bool   // construct with New() (default comparator of a cmp.Ordered type) instead of NewWith
+	KTie    string // relational cases: tying key / element comparator ("" = natural order)
+	VTie    string // relational cases: tying value comparator of TreeBidiMap
+	Cap     int    // CircularBuffer
+	Order   int    // BTree
 }
 
 func (c Config) String() string {
@@ -33,10 +34,12 @@ func (c Config) String() string {
 	} else {
 		fmt.Fprintf(&b, "T=%s", c.KT)
 	}
-	if takesComparator(c.Kind) {
+	if takesComparator(c.Kind) && c.Default {
+		b.WriteString(" ctor=New")
+	} else if takesComparator(c.Kind) {
 		b.WriteString(" cmp=" + cmpName(c.KRev, c.KTie))
 	}
-	if c.Kind == "TreeBidiMap" {
+	if c.Kind == "TreeBidiMap" && !c.Default {
 		b.WriteString(" vcmp=" + cmpName(c.VRev, c.VTie))
 	}
 	if c.Kind == "CircularBuffer" {
@@ -120,6 +123,11 @@ type drv struct {
 	clear  func()
 	str    func() string
 
+	container        any                    // the container itself
+	goMapJSON        func() ([]byte, error) // key-value kinds: json.Marshal of the equivalent Go map
+	sortedValues     func() []int           // float elements: containers.GetSortedValues
+	sortedValuesFunc func(rev bool) []int   // ... GetSortedValuesFunc with cmp.Compare / reversed
+
 	toJSON    func() ([]byte, error)
 	fromJSON  func([]byte) error
 	marshal   func() ([]byte, error) // json.Marshal(container)
@@ -175,7 +183,7 @@ type baseAPI[T any] interface {
 
 // dec translates an atom coming out of the container to its rank
 func dec[T comparable](d *drv, c *codec[T], x T) int {
-	if r, ok := c.idx[x]; ok {
+	if r, ok := c.rankOf(x); ok {
 		return r
 	}
 	if len(d.foreign) < 8 {
@@ -194,53 +202,128 @@ func decs[T comparable](d *drv, c *codec[T], xs []T) []int {
 
 func bindBase[T comparable](d *drv, c baseAPI[T], cv *codec[T]) {
 	d.size, d.empty, d.clear, d.str = c.Size, c.Empty, c.Clear, c.String
+	d.container = c
 	d.values = func() []int { return decs(d, cv, c.Values()) }
 	d.toJSON, d.fromJSON = c.ToJSON, c.FromJSON
 	d.marshal = func() ([]byte, error) { return json.Marshal(c) }
 	d.unmarshal = func(b []byte) error { return json.Unmarshal(b, c) }
 }
 
+// goName: the Go type behind an atom type
+func goName(typ string) string {
+	switch typ {
+	case "tstring":
+		return "string"
+	case "tint", "rank":
+		return "int"
+	}
+	return typ
+}
+
 // newDrv constructs the container described by cfg: the string side, or its int twin.
 func newDrv(cfg Config, twin bool) *drv {
 	d := &drv{cfg: cfg, twin: twin}
+	kv := isKVKind(cfg.Kind)
 	if twin {
 		d.label, d.kt, d.vt = "int twin", "rank", "rank"
-		build(d, rankCodec, rankCodec)
-		return d
-	}
-	d.label, d.kt, d.vt = "string side", cfg.KT, cfg.VT
-	if !isKVKind(cfg.Kind) {
-		d.vt = cfg.KT
-		if isStr(cfg.KT) {
-			build(d, strOf(cfg.KT), strOf(cfg.KT))
-		} else {
-			build(d, intOf(cfg.KT), intOf(cfg.KT))
+		build(d, rankCodec, rankCodec, nil)
+	} else {
+		d.label, d.kt, d.vt = "string side", cfg.KT, cfg.VT
+		if !kv {
+			d.vt = cfg.KT
 		}
-		return d
+		dispatch(d, kv)
 	}
-	switch {
-	case isStr(cfg.KT) && isStr(cfg.VT):
-		build(d, strOf(cfg.KT), strOf(cfg.VT))
-	case !isStr(cfg.KT) && isStr(cfg.VT):
-		build(d, intOf(cfg.KT), strOf(cfg.VT))
-	case isStr(cfg.KT) && !isStr(cfg.VT):
-		build(d, strOf(cfg.KT), intOf(cfg.VT))
-	default:
-		build(d, intOf(cfg.KT), intOf(cfg.VT))
+	if !kv && cfg.KT == "ptr" { // pointer identity: Contains / IndexOf are meaningless after a reload
+		d.contains, d.indexOf = nil, nil
+	}
+	if cc, ok := d.container.(containers.Container[float64]); ok && !twin {
+		d.sortedValues = func() []int { return decs(d, floatCodec, containers.GetSortedValues(cc)) }
+		d.sortedValuesFunc = func(rev bool) []int {
+			return decs(d, floatCodec, containers.GetSortedValuesFunc(cc, floatCodec.cmpFn(rev)))
+		}
 	}
 	return d
 }
 
-func build[K comparable, V comparable](d *drv, ck *codec[K], cv *codec[V]) {
+func dispatch(d *drv, kv bool) {
+	cfg := d.cfg
+	if !kv {
+		switch goName(cfg.KT) {
+		case "string":
+			build(d, strOf(cfg.KT), strOf(cfg.KT), nil)
+		case "int":
+			build(d, intOf(cfg.KT), intOf(cfg.KT), nil)
+		case "struct":
+			build(d, structCodec, structCodec, nil)
+		case "ptr":
+			build(d, ptrCodec, ptrCodec, nil)
+		case "float":
+			var ct *ctors[float64, float64]
+			if cfg.Default {
+				ct = defaultCtors[float64, float64]()
+			}
+			build(d, floatCodec, floatCodec, ct)
+		default:
+			panic("strprobe: unknown element type " + cfg.KT)
+		}
+		return
+	}
+	switch goName(cfg.KT) + "/" + goName(cfg.VT) {
+	case "string/string":
+		build(d, strOf(cfg.KT), strOf(cfg.VT), nil)
+	case "int/string":
+		build(d, intOf(cfg.KT), strOf(cfg.VT), nil)
+	case "string/int":
+		build(d, strOf(cfg.KT), intOf(cfg.VT), nil)
+	case "int/int":
+		build(d, intOf(cfg.KT), intOf(cfg.VT), nil)
+	case "string/struct":
+		build(d, strOf(cfg.KT), structCodec, nil)
+	case "int/struct":
+		build(d, intOf(cfg.KT), structCodec, nil)
+	case "string/ptr":
+		build(d, strOf(cfg.KT), ptrCodec, nil)
+	case "int/ptr":
+		build(d, intOf(cfg.KT), ptrCodec, nil)
+	case "dur/string":
+		build(d, durCodec, strOf(cfg.VT), nil)
+	case "dur/struct":
+		build(d, durCodec, structCodec, nil)
+	case "duration/int":
+		build(d, durationCodec, intOf(cfg.VT), nil)
+	case "duration/string":
+		build(d, durationCodec, strOf(cfg.VT), nil)
+	case "float/string":
+		var ct *ctors[float64, string]
+		if cfg.Default {
+			ct = defaultCtors[float64, string]()
+		}
+		build(d, floatCodec, strOf(cfg.VT), ct)
+	case "float/float":
+		var ct *ctors[float64, float64]
+		if cfg.Default {
+			ct = defaultCtors[float64, float64]()
+		}
+		build(d, floatCodec, floatCodec, ct)
+	default:
+		panic("strprobe: unknown instantiation " + cfg.KT + "/" + cfg.VT)
+	}
+}
+
+func build[K comparable, V comparable](d *drv, ck *codec[K], cv *codec[V], ct *ctors[K, V]) {
+	if ct == nil {
+		ct = &ctors[K, V]{}
+	}
 	switch d.cfg.Kind {
 	case "ArrayList", "SinglyLinkedList", "DoublyLinkedList":
 		constructList(d, ck)
 	case "HashSet", "TreeSet", "LinkedHashSet":
-		constructSet(d, ck)
+		constructSet(d, ck, ct.treeSet)
 	case "ArrayStack", "LinkedListStack", "ArrayQueue", "LinkedListQueue", "CircularBuffer", "BinaryHeap", "PriorityQueue":
-		constructLinear(d, ck)
+		constructLinear(d, ck, ct.heap, ct.pq)
 	default:
-		constructMap(d, ck, cv)
+		constructMap(d, ck, cv, ct)
 	}
 }
 
